@@ -300,92 +300,122 @@ fn mark_done(x: &mut World, id: Cid) {
     }
 }
 
+/// the behaviour of a scripted future, shared by the drop-tracked and the drop-glue-free flavour
+fn poll_child<K: Kind>(id: Cid, addr: usize, cx: &mut Context<'_>) -> Poll<K::Out> {
+    let _cb = CbGuard::new();
+    let slot = cx.waker().data() as usize;
+    if !enter_child_poll(id, addr, slot, "child") {
+        panic!("VERIF_HARD_CAP");
+    }
+    let boom = w(|x| {
+        let c = &mut x.children[id as usize];
+        if c.panic_left > 0 && !x.frozen {
+            c.panic_left -= 1;
+            true
+        } else {
+            false
+        }
+    });
+    if boom {
+        // park a waker first, so that the environment can still wake this child afterwards
+        let mode = w(|x| x.children[id as usize].plan.stash.max(1));
+        stash_waker(id, cx.waker(), mode);
+        w(|x| {
+            x.labels |= lb::CHILD_PANIC;
+            x.lenient = true;
+            x.ev(|| format!("    child {id} panics inside its poll"));
+        });
+        panic!("VERIF_CHILD_PANIC");
+    }
+    let (phase, mode) = w(|x| {
+        let frozen = x.frozen;
+        let c = &mut x.children[id as usize];
+        let mode = c.plan.stash.max(1);
+        if frozen {
+            return (Phase::Pending { self_wake: false, act: None }, mode);
+        }
+        if c.ready && c.life != Life::Done {
+            let sw = c.plan.wake_on_complete;
+            let act = c.plan.on_poll;
+            let fail = c.plan.fail;
+            mark_done(x, id);
+            if fail && x.first_err.is_none() {
+                x.first_err = Some(id);
+            }
+            if sw {
+                x.labels |= lb::SELF_WAKE_ON_COMPLETE;
+            }
+            (Phase::Ready { self_wake: sw, act, fail }, mode)
+        } else if c.life == Life::Done {
+            // polled after completion: already flagged; stay pending and quiet
+            (Phase::Pending { self_wake: false, act: None }, mode)
+        } else {
+            let sw = c.self_wake > 0;
+            if c.self_wake > 0 && c.self_wake != 255 {
+                c.self_wake -= 1;
+            }
+            (Phase::Pending { self_wake: sw, act: c.plan.on_poll }, mode)
+        }
+    });
+    match phase {
+        Phase::Pending { self_wake, act } => {
+            stash_waker(id, cx.waker(), mode);
+            if self_wake {
+                begin_invocation(slot, id, "self wake_by_ref");
+                vt(|| cx.waker().wake_by_ref());
+                end_invocation();
+            }
+            if let Some(a) = act {
+                run_action(a);
+            }
+            Poll::Pending
+        }
+        Phase::Ready { self_wake, act, fail } => {
+            if self_wake {
+                begin_invocation(slot, id, "self wake_by_ref (completing)");
+                vt(|| cx.waker().wake_by_ref());
+                end_invocation();
+            }
+            if let Some(a) = act {
+                run_action(a);
+            }
+            Poll::Ready(K::make(id, fail))
+        }
+    }
+}
+
 impl<K: Kind> Future for ScriptFut<K> {
     type Output = K::Out;
 
     fn poll(self: Pin<&mut Self>, cx: &mut Context<'_>) -> Poll<K::Out> {
-        let _cb = CbGuard::new();
         let id = self.id;
         let addr = &*self as *const Self as usize;
-        let slot = cx.waker().data() as usize;
-        if !enter_child_poll(id, addr, slot, "child") {
-            panic!("VERIF_HARD_CAP");
+        poll_child::<K>(id, addr, cx)
+    }
+}
+
+/// The same scripted future WITHOUT drop glue (`needs_drop::<NdFut<K>>() == false`): its drop cannot be
+/// observed, everything else can. For code paths that specialise on the future type having no destructor.
+pub struct NdFut<K: Kind> {
+    pub id: Cid,
+    _k: PhantomData<fn() -> K>,
+    _pin: PhantomPinned,
+}
+impl<K: Kind> NdFut<K> {
+    pub fn new(id: Cid) -> Self {
+        NdFut {
+            id,
+            _k: PhantomData,
+            _pin: PhantomPinned,
         }
-        let boom = w(|x| {
-            let c = &mut x.children[id as usize];
-            if c.panic_left > 0 && !x.frozen {
-                c.panic_left -= 1;
-                true
-            } else {
-                false
-            }
-        });
-        if boom {
-            // park a waker first, so that the environment can still wake this child afterwards
-            let mode = w(|x| x.children[id as usize].plan.stash.max(1));
-            stash_waker(id, cx.waker(), mode);
-            w(|x| {
-                x.labels |= lb::CHILD_PANIC;
-                x.lenient = true;
-                x.ev(|| format!("    child {id} panics inside its poll"));
-            });
-            panic!("VERIF_CHILD_PANIC");
-        }
-        let (phase, mode) = w(|x| {
-            let frozen = x.frozen;
-            let c = &mut x.children[id as usize];
-            let mode = c.plan.stash.max(1);
-            if frozen {
-                return (Phase::Pending { self_wake: false, act: None }, mode);
-            }
-            if c.ready && c.life != Life::Done {
-                let sw = c.plan.wake_on_complete;
-                let act = c.plan.on_poll;
-                let fail = c.plan.fail;
-                mark_done(x, id);
-                if fail && x.first_err.is_none() {
-                    x.first_err = Some(id);
-                }
-                if sw {
-                    x.labels |= lb::SELF_WAKE_ON_COMPLETE;
-                }
-                (Phase::Ready { self_wake: sw, act, fail }, mode)
-            } else if c.life == Life::Done {
-                // polled after completion: already flagged; stay pending and quiet
-                (Phase::Pending { self_wake: false, act: None }, mode)
-            } else {
-                let sw = c.self_wake > 0;
-                if c.self_wake > 0 && c.self_wake != 255 {
-                    c.self_wake -= 1;
-                }
-                (Phase::Pending { self_wake: sw, act: c.plan.on_poll }, mode)
-            }
-        });
-        match phase {
-            Phase::Pending { self_wake, act } => {
-                stash_waker(id, cx.waker(), mode);
-                if self_wake {
-                    begin_invocation(slot, id, "self wake_by_ref");
-                    vt(|| cx.waker().wake_by_ref());
-                    end_invocation();
-                }
-                if let Some(a) = act {
-                    run_action(a);
-                }
-                Poll::Pending
-            }
-            Phase::Ready { self_wake, act, fail } => {
-                if self_wake {
-                    begin_invocation(slot, id, "self wake_by_ref (completing)");
-                    vt(|| cx.waker().wake_by_ref());
-                    end_invocation();
-                }
-                if let Some(a) = act {
-                    run_action(a);
-                }
-                Poll::Ready(K::make(id, fail))
-            }
-        }
+    }
+}
+impl<K: Kind> Future for NdFut<K> {
+    type Output = K::Out;
+    fn poll(self: Pin<&mut Self>, cx: &mut Context<'_>) -> Poll<K::Out> {
+        let id = self.id;
+        let addr = &*self as *const Self as usize;
+        poll_child::<K>(id, addr, cx)
     }
 }
 
